@@ -14,6 +14,7 @@ from ..engine_k import engine_correspondence
 from . import _hidabs as H
 from . import _placement as P
 from . import _flexalg as FA
+from . import _gridalg as GA
 
 THEOREMS = [
     'C05_hidden_zero : HiddenZero t -> memo f t i = Some (o, t\') -> HiddenZero t\' /\\ (every strict descendant of a display:none node of t\' '
@@ -41,6 +42,16 @@ THEOREMS = [
     'C01_flex_algorithm_satisfies_interface : WFAlg (flex_alg s st i) /\\ (PerformLayout -> Visits (seq 0 n) ..) /\\ (PerformLayout -> SetsLast nones (seq 0 n) ..) /\\ NoHiddenSize nones ..',
     'C01_flex_algorithm_NS_partial : fs_row s = false \\/ no child baseline-aligned -> ComputeSize -> SizeOnly (flex_alg s st i)',
     'C01_flex_algorithm_NS_refuted : exists s st i, ComputeSize /\\ ~ SizeOnly (flex_alg s st i) /\\ first non-size event = PerformLayout/ContentSize query to child 0 (flexbox.rs l.1440)',
+    'C05_grid_algorithm_shape : GShape st (grid_alg s st i)  [every event: ComputeSize query to an in-flow child | PerformLayout query / SetLayout on a child that is not display:none | '
+    'Query c hidden_child_input (fun _ => SetLayout c (with_order n) ..) on a display:none child | Ret; grid_alg = compute_grid_layout as a resumption, Model/GridAlg.v, K-exact against the event trace]',
+    'C05_grid_model_loops_are_source : oof_view s = (if grid_final_loop_hidden_test .. s then OHidden else if grid_final_loop_absolute_test .. s then OAbs s else OSkip) /\\ grid_hidden_branch_is_canonical = true /\\ grid_absolute_branch_is_local = true /\\ grid_tree_calls_address_item_only = true   [tests TRANSLATED from the final loop of compute_grid_layout]',
+    'C05_grid_sizing_guard_never_fires : place .. = Ok (m, placed) -> mapM make_item placed = Ok items0 -> PGood (in-flow flag set) true (fun _ => True) (m_size_grid s P i (mkSS cols0 rows0 0 0 items0))',
+    'C05_grid_algorithm_hidden_blind : HiddenBlind g_is_none grid_alg /\\ grid_alg s st i = grid_alg s (map g_hidden_view st) i',
+    'C05_grid_algorithm_sets_zero_on_hidden : SetsZeroOnHidden g_is_none grid_alg g_zeroish',
+    'C05_grid_engine_hidden_invisible, C05_taffy_engine_hidden_invisible : the conclusion of C05_hidden_blind_engine for engines of grid containers and leaves / of block, flex, grid containers and leaves -- no premise on the algorithms',
+    'C01_grid_algorithm_satisfies_interface : WFAlg (grid_alg s st i) /\\ (grid_no_panic s st i = true -> PerformLayout -> Visits (seq 0 n) ..) /\\ (grid_no_panic .. -> PerformLayout -> SetsLast nones (seq 0 n) ..) /\\ NoHiddenSize nones ..',
+    'C01_grid_algorithm_NS_partial : align_items s <> Baseline -> Forall (align_self <> Baseline) st -> ComputeSize -> SizeOnly (grid_alg s st i)',
+    'C01_grid_algorithm_NS_refuted : exists s st i, ComputeSize /\\ ~ SizeOnly (grid_alg s st i) /\\ first event = PerformLayout query to child 0 (track_sizing.rs l.491 resolve_item_baselines)',
 ]
 
 
@@ -58,8 +69,10 @@ def run(rep, tier, seed, replay=None):
         'algorithm as modelled in Model/BlockAlg.v (compute_inner as a resumption assembled from the translated item pipeline and the K-validated '
         'kernel of Model/Block.v), for the FLEX algorithm as modelled in Model/FlexAlg.v (all of compute_flexbox_layout as a resumption: hand model, '
         'validated event by event and bit for bit against the implementation by `vh flexalg cases` on every run; for it WF, H1, H3, HQ are theorems too) '
-        'and for the item generation of all three algorithms (translated pipelines); for the GRID tail they are validated only through the metamorphic '
-        'oracle on the implementation',
+        'for the GRID algorithm as modelled in Model/GridAlg.v (all of compute_grid_layout as a resumption -- item contribution protocol with its caches, '
+        'baselines, re-runs, final passes: hand model assembled from the C08/C09/C11 components, validated event by event and bit for bit against the '
+        'implementation by `vh gridalg cases` on every run; WF, HQ theorems, H1 / H3 theorems under grid_no_panic) '
+        'and for the item generation of all three algorithms (translated pipelines)',
         'translator/gen_filters.py (item-generation pipelines, box_generation_mode, the hidden-children loop of compute_inner); fails closed',
         'grid placement model Model/Placement.v: hand transcription of placement.rs / implicit_grid.rs / the child filters of grid/mod.rs '
         '(tied by K + fingerprints); tables regenerated from the source',
@@ -95,6 +108,10 @@ def run(rep, tier, seed, replay=None):
     if not replay:
         FA.flexalg_k(rep, 'C05', binp, seed + 5050, 1500 if escalate else 400, payload_is_broken=False)
         FA.ns_witness(rep, 'C05', binp)
+        # ---- K5: the grid resumption (Model/GridAlg.v) vs the event trace of compute_grid_layout (family 1: display:none children, no absolute
+        #      ones), + the grid NS witness on the implementation
+        GA.gridalg_k(rep, 'C05', binp, seed + 5151, 1200 if escalate else 400, family=1, payload_is_broken=False)
+        GA.ns_witness(rep, 'C05', binp)
     for t in THEOREMS:
         rep.cov['samples'].append({'theorem': t})
     # ---- search: metamorphic oracle on the implementation
